@@ -206,6 +206,12 @@ fn shapes(max_chain: usize) -> Vec<Shape> {
     out
 }
 
+/// the heap-shape programs with holder chains of length <= 1 (for C10: the build configurations differ
+/// most in when collections happen)
+pub fn shape_sources_for_c10() -> Vec<String> {
+    shapes(1).into_iter().filter(|s| !s.abandoned_fiber).map(|s| s.source).collect()
+}
+
 fn run_with(runner: &mut Runner, src: &str, gc: GcSpec) -> (Obs, Option<SnippetResult>, Vec<String>, usize) {
     run_with_modules(runner, src, &BTreeMap::new(), gc)
 }
